@@ -22,7 +22,9 @@ class Model:
         self.order = [lab for lab, _, _ in graph]
         fam = cfg["family"]
         self.family = "distance" if fam == "distance" else "simple"
-        self.nk = fam == "nk"  # only the start scan (emission + cut-offs) is modelled for this family
+        self.nk = fam == "nk"  # NewsonKrummMatcher: erfc emission, exp(-|d_z - d_x| / beta) transition (used by C02/C03 only)
+        self.beta = cfg.get("beta", 1 / 6)
+        self.beta_ne = cfg.get("beta_ne", self.beta)
         self.only_edges = fam != "simple_n"
         self.sig = cfg.get("obs_noise", 1)
         self.sig_ne = cfg.get("obs_noise_ne") if cfg.get("obs_noise_ne") is not None else self.sig
@@ -92,13 +94,31 @@ class Model:
     def emis(self, d, ne=False):
         sg = self.sig_ne if ne else self.sig
         if self.nk:  # Newson-Krumm variant: P(d) = 2 (1 - Phi(d / sigma)) = erfc(d / (sigma sqrt 2))
-            v = math.erfc(d / (sg * math.sqrt(2.0)))
+            z = d / sg
+            if z <= 5.0:
+                v = math.erfc(z / math.sqrt(2.0))
+            else:
+                # deep tail: the documented formula 2 * (1 - cdf) cancels in floating point (relative error 1e-9 at z = 5,
+                # 100 % at z = 8, exactly 0 beyond 8.3); it is evaluated here as written, with the same library function
+                from scipy.special import ndtr
+                v = 2 * (1 - float(ndtr(z)))
             return LOG(v) if v > 0 else -math.inf
         return -d * d / (2 * sg * sg)
 
     def trans(self, p, r, pp=None):
         """log transition probability from record p to record r (pp = record before p, or None)."""
         same = p["s"] == r["s"]
+        if self.nk:
+            # documented in NewsonKrummMatcher.logprob_trans: d_z between the two (interpolated) observations, d_x along the
+            # previous edge to its end and from there to the new matched point; no accumulation over non-emitting runs
+            dz = g2.dist(p["opi"], r["opi"])
+            if same:
+                dx = g2.dist(p["pi"], r["pi"])
+            else:
+                p2 = self.loc[p["s"][1]]
+                dx = g2.dist(p["pi"], p2) + g2.dist(p2, r["pi"])
+            r["d_o"], r["d_s"] = dz, dx
+            return -abs(dz - dx) / (self.beta_ne if (p["ne"] or r["ne"]) else self.beta)
         if self.family == "simple":
             if same:
                 return LOG(0.99) if (self.ag and r["ti"] < p["ti"]) else 0.0
